@@ -209,7 +209,7 @@ func WriteFail(prop, kind, msg string, c any) {
 	if path == "" {
 		return
 	}
-	raw, err := json.Marshal(c)
+	raw, err := EncodeCase(c)
 	if err != nil {
 		raw = []byte(strconv.Quote(fmt.Sprintf("unmarshalable case: %v", err)))
 	}
@@ -241,7 +241,7 @@ func Journal(prop, kind string, c any) {
 		}
 		journalFile = f
 	}
-	raw, err := json.Marshal(c)
+	raw, err := EncodeCase(c)
 	if err != nil {
 		return
 	}
